@@ -75,6 +75,7 @@ type domain struct {
 	sleepy    float64
 	gate      float64
 	rdv       float64 // C03: rendezvous of everything that is runnable from the start
+	pfirst    float64 // C04: panic recorded first, other failures afterwards (needs scheduler hooks)
 	goexit    float64 // fraction of faults that kill the goroutine with runtime.Goexit
 }
 
@@ -95,6 +96,7 @@ func domainFor(prop string) domain {
 		d.pFault, d.perUnit, d.panics = 0.4, 0.2, 0.3
 	case "C04":
 		d.pFault, d.perUnit, d.panics, d.predPanic, d.elemFault = 1, 0.35, 1, 0.25, 0.2
+		d.pfirst = 0.2
 		d.g = []int{1, 1, 2, 4}
 	case "C07":
 		d.pFault, d.perUnit, d.panics, d.elemFault = 1, 0.3, 0.3, 0.15
@@ -261,6 +263,63 @@ func genScenario(t *rapid.T, s *rt.Spec, d domain) *rt.Scenario {
 			}
 		}
 	}
+	// (no other scheduler job may exist: no further directives in the function,
+	// and not the generic enclosure, whose type parameter feeds a task of its own)
+	if d.pfirst > 0 && rt.HooksOn && s.Extra == 0 && s.Encl != "generic" && prob(t, "pfirst", d.pfirst) &&
+		!(s.COE == "true" || s.COE == "bctrue" || s.COE == "expr") {
+		// candidates: dependency-free functions that are not element functions
+		units, n := rt.RdvPlan(s, scn)
+		var single []int
+		for _, u := range units {
+			if k := kinds[u]; k != rt.USliceFn && k != rt.UMapFn {
+				single = append(single, u)
+			}
+		}
+		// the panicking function must not have a FallbackWith that absorbs the panic
+		absorbed := map[int]bool{}
+		for _, ts := range s.Tasks {
+			if ts.Fallback {
+				absorbed[ts.Unit] = true
+				if ts.Pred != nil {
+					absorbed[ts.Pred.Unit] = true
+				}
+			}
+		}
+		var acands []int
+		for _, u := range single {
+			if !absorbed[u] {
+				acands = append(acands, u)
+			}
+		}
+		if len(single) >= 2 && len(acands) >= 1 && n <= rt.ConcLimit(s, scn) {
+			a := acands[uniform(t, "pfa", len(acands))]
+			b := a
+			for b == a {
+				b = single[uniform(t, "pfb", len(single))]
+			}
+			// an otherwise clean scenario
+			for u := range scn.Out {
+				scn.Out[u] = rt.Outcome{T: scn.Out[u].T, D: scn.Out[u].D}
+				scn.Pred[u] = rt.PTrue
+			}
+			for i := range scn.Elems {
+				scn.Elems[i].O = rt.Outcome{T: scn.Elems[i].O.T, D: scn.Elems[i].O.D}
+			}
+			scn.Out[a].K, scn.Out[a].PV = rt.OPanic, uniform(t, "pfpv", 9)
+			if s.UnitCanErr()[b] && prob(t, "pfberr", 0.7) {
+				scn.Out[b].K = rt.OErr
+			} else {
+				scn.Out[b].K, scn.Out[b].PV = rt.OPanic, uniform(t, "pfpv2", 5)
+			}
+			scn.PFirst, scn.G, scn.Rdv, scn.GateU, scn.GateFor = a+1, 1, 0, 0, 0
+			for _, u := range units {
+				if u != a {
+					scn.PFirstUnits = append(scn.PFirstUnits, u)
+				}
+			}
+			return scn
+		}
+	}
 	if scn.Rdv == 0 && prob(t, "cancel", d.cancel) {
 		switch uniform(t, "cancelkind", 4) {
 		case 0:
@@ -301,6 +360,8 @@ type execResult struct {
 }
 
 // execute runs G simultaneous executions of the directive.
+var hooksOnce sync.Once
+
 func execute(s *rt.Spec, scn *rt.Scenario, prop string) *execResult {
 	return executeAs(s, scn, prop, s.Name)
 }
@@ -329,6 +390,14 @@ func executeAs(s *rt.Spec, scn *rt.Scenario, prop, regName string) *execResult {
 		env := rt.NewEnv(i, s, sc)
 		env.Race = prop == "C12"
 		env.Census = prop == "C03"
+		if sc.PFirst > 0 {
+			hooksOnce.Do(rt.InstallHooks)
+			if len(base) > 0 {
+				// schedulers of an earlier, abandoned execution are still alive:
+				// their results would release the parked functions early
+				env.PFirstUnreleased.Store(true)
+			}
+		}
 		env.BaseG = baseAll
 		env.Solo = g == 1
 		run := &rt.Run{Env: env, Mode: prop}
@@ -472,6 +541,7 @@ func evaluate(s *rt.Spec, scn *rt.Scenario, prop string) (mine, other []rt.Findi
 		all = append(all, rt.Finding{Prop: "C05", Msg: "the directive never returned; every goroutine is blocked:\n" + res.hang})
 	} else if res.inconclusive == "" {
 		for _, r := range res.runs {
+			all = append(all, rt.CheckPanicFirst(r)...)
 			all = append(all, rt.Check(r)...)
 		}
 		if res.leak != "" {
@@ -712,7 +782,7 @@ func hammerScenario(t *rapid.T, s *rt.Spec, scn *rt.Scenario, prop string) *rt.S
 	if hm.CancelK == rt.CTimer {
 		hm.CancelK, hm.CancelU = rt.CInUnit, 0
 	}
-	hm.G, hm.GateU, hm.GateFor, hm.Rdv = 1, 0, 0, 0
+	hm.G, hm.GateU, hm.GateFor, hm.Rdv, hm.PFirst = 1, 0, 0, 0, 0
 	return &hm
 }
 
